@@ -18,7 +18,7 @@ int crypto_auth(unsigned char *out, const unsigned char *in, unsigned long long 
 
 static gbuf_t gIN, gOUT, gKEY;
 static unsigned long long n_forks, n_special, n_huge_bytes, n_eval, n_model, n_oneshot, n_seq, n_updates, n_zero_updates, n_hist_ops, n_finalize,
-    n_ref, n_hmac, n_hmac_stream, n_reinit, n_bytes;
+    n_ref, n_hmac, n_hmac_stream, n_reinit, n_bytes, n_rotated;
 
 static void digest_mismatch(const char *key, const char *what, const uint8_t *exp, const uint8_t *got)
 {
@@ -430,6 +430,18 @@ static void hmac_case(const args_t *a, long idx, size_t keylen, size_t mlen)
             tinyjambu_hmac_update(&st, in, mlen);
             tinyjambu_hmac_finalize(&st, key2, k2l, d2);
             if (memcmp(d2, e2, 32)) digest_mismatch("hmac-rekey-mismatch:init-on-used-state", "HMAC after init on a used state differs from the model", e2, d2);
+            /* the key rotated IN PLACE: same buffer, same length, new bytes, then reinit (a state may not remember a key by
+             * where it was) - and the same with the buffer's old bytes restored */
+            { uint8_t e3[32], saved[256]; int rot;
+              memcpy(saved, key2, sizeof saved);
+              for (rot = 0; rot < 2; ++rot) {
+                  if (rot == 0) fill_random(&r, key2, sizeof key2); else memcpy(key2, saved, sizeof key2);
+                  tinyjambu_hmac_reinit(&st, key2, k2l);
+                  tinyjambu_hmac_update(&st, in, mlen);
+                  tinyjambu_hmac_finalize(&st, key2, k2l, d2);
+                  m_hmac(e3, key2, k2l, in, mlen); ++n_reinit; ++n_model; ++n_rotated;
+                  if (memcmp(d2, e3, 32)) digest_mismatch("hmac-rekey-mismatch:key-rotated-in-place", "HMAC after reinit with new key bytes in the same buffer differs from the model", e3, d2);
+              } }
         }
         tinyjambu_hmac_free(&st);
     }
@@ -560,7 +572,7 @@ int main(int argc, char **argv)
     emit_stat("evaluations", n_eval); emit_stat("model_digests", n_model); emit_stat("oneshot_hash_calls", n_oneshot);
     emit_stat("update_sequences", n_seq); emit_stat("update_calls", n_updates); emit_stat("zero_length_updates", n_zero_updates);
     emit_stat("history_ops", n_hist_ops); emit_stat("states_forked_by_copy_and_used", n_forks); emit_stat("finalize_judged", n_finalize); emit_stat("bundled_reference_comparisons", n_ref);
-    emit_stat("hmac_oneshot", n_hmac); emit_stat("hmac_streamed", n_hmac_stream); emit_stat("hmac_reinit_histories", n_reinit);
+    emit_stat("hmac_oneshot", n_hmac); emit_stat("hmac_streamed", n_hmac_stream); emit_stat("hmac_reinit_histories", n_reinit); emit_stat("hmac_keys_rotated_in_place", n_rotated);
     emit_stat("input_bytes_hashed_by_model", n_bytes);
     finish();
     return 0;
